@@ -16,6 +16,7 @@ import Compress.Proofs.Window
 import Compress.Proofs.BitIO
 import Compress.Proofs.PrefixTables
 import Compress.Proofs.BrotliSpec
+import Compress.Proofs.BrotliCut
 
 namespace Compress.Props.C02
 open Compress
@@ -74,5 +75,27 @@ theorem C02_spec_compressed_example  :
     decode .empty [0x1b, 0x11, 0x00, 0x00, 0x24, 0xc3, 0xc4, 0xc6, 0x42, 0x9b, 0x20, 0xd2]
       = ⟨#[97, 98, 99, 97, 98, 99, 97, 98, 99, 97, 98, 99, 97, 98, 99, 97, 98, 99], .ok 96⟩ :=
   Compress.Brotli.Proofs.decode_compressed_abc 
+
+open Compress.Proofs.BrotliCut Compress Compress.Brotli Compress.Proofs.BrCut in
+/-- **Specification, cut streams (C09/C12 for Brotli).** A stream the specification accepts, cut at any byte before its end, ends with unexpected EOF - never success, never corrupt - and what was produced is a prefix of the full output. -/
+theorem C02_spec_cut (dict : ByteArray) (bytes : List UInt8) (out : Array UInt8) (n : Nat)
+    (h : decode dict bytes = { out := out, verdict := .ok n }) (k : Nat) (hk : 8 * k < n) :
+    (decode dict (bytes.take k)).verdict = .unexpectedEOF ∧
+    (decode dict (bytes.take k)).out.toList <+: out.toList :=
+  Compress.Proofs.BrotliCut.decode_cut dict bytes out n h k hk
+
+open Compress.Proofs.BrotliCut Compress Compress.Brotli Compress.Proofs.BrCut in
+/-- **Specification, trailing bytes.** Whatever follows a complete stream does not change the result. -/
+theorem C02_spec_trailing_ignored (dict : ByteArray) (bits ext : Bits) (out : Array UInt8) (n : Nat)
+    (h : decodeBits dict bits = { out := out, verdict := .ok n }) :
+    decodeBits dict (bits.take n ++ ext) = { out := out, verdict := .ok n } :=
+  Compress.Proofs.BrotliCut.decodeBits_ext dict bits ext out n h
+
+open Compress.Proofs.BrotliCut Compress Compress.Brotli Compress.Proofs.BrCut in
+/-- the consumed count of an accepted stream lies within the input and is a whole number of bytes. -/
+theorem C02_spec_consumed (dict : ByteArray) (bits : Bits) (out : Array UInt8) (n : Nat)
+    (h8 : bits.length % 8 = 0)
+    (h : decodeBits dict bits = { out := out, verdict := .ok n }) : n ≤ bits.length ∧ n % 8 = 0 :=
+  Compress.Proofs.BrotliCut.consumed_bounds dict bits out n h8 h
 
 end Compress.Props.C02
